@@ -705,7 +705,21 @@ impl OverlayInode {
                         Some((mode, umask)) => {
                             parent_ri.mkdir(ctx, self.name.as_str(), mode, umask)?
                         }
-                        None => parent_ri.mkdir(ctx, self.name.as_str(), st.st_mode, 0)?,
+                        None => {
+                            let ri = parent_ri.mkdir(ctx, self.name.as_str(), st.st_mode, 0)?;
+                            // mkdir(2) ignores the set-user-ID and set-group-ID bits of `mode`,
+                            // the copy must still have them.
+                            if st.st_mode & (libc::S_ISUID | libc::S_ISGID) != 0 {
+                                ri.layer.setattr(
+                                    ctx,
+                                    ri.inode,
+                                    st,
+                                    None,
+                                    crate::api::filesystem::SetattrValid::MODE,
+                                )?;
+                            }
+                            ri
+                        }
                     };
                     // create directory here
                     child.replace(ri);
